@@ -225,8 +225,13 @@ def _ensure_object_loader(context, saved_state):
     ensures('values_kept', implies(context is not None, wf_lsc(ret) and forall(lambda k: dhas(ret._values, k) == old(dhas(context._values, k))
                                                                            and implies(dhas(ret._values, k), dget(ret._values, k) is old(dget(context._values, k))))))
     ensures('is_context', isinstance(ret, LoadSaveContext) and ret.loader is not None or has_ctx or recorded)
+    # the caller's context object serves several loads (ProcessLauncher keeps one): it is never pinned to the loader resolved for
+    # this state -- a context without a loader comes back as a NEW context
+    ensures('given_context_left_alone', implies(context is not None, context.loader is old(context.loader)
+                                                and implies(old(context.loader) is None, ret is not context)))
     raises(ValueError, True)
     raises(Exception, not has_ctx and recorded)
+    replay('given_context_left_alone', 'savable_members')
 
 
 # ------------------------------------------------------------------------------------------------ persisters (C14)
